@@ -1601,4 +1601,515 @@ Section Pool.
           -- apply (Pa t WTake Hold); [apply (Hlt WTake); auto|discriminate].
           -- apply (Pa t (WGot k) Hold); [apply (Hlt (WGot k)); eauto 6|discriminate].
   Qed.
+
+  Theorem IInv_reach : forall progs s, preach nw maxq (pinit nw progs) s -> IInv s.
+  Proof.
+    intros progs s Hr. assert (coh s /\ IInv s) as (_ & I); auto. revert s Hr. apply preach_inv.
+    - split; [apply coh_init|]. constructor.
+      + intros t _ [].
+      + intros t. cbn. lia.
+      + intros t p Hp Hlt Hq. exfalso. unfold pc_at, pinit in Hp. cbn [pcs] in Hp.
+        rewrite nth_error_app1 in Hp by (rewrite repeat_length; auto).
+        apply nth_error_In in Hp. apply repeat_spec in Hp. auto.
+      + intros x [].
+    - intros s l s' _ (C & I) H. split; [eapply coh_step|eapply IInv_step]; eauto.
+  Qed.
+
+  (* ================================================================ how many stop() calls are under way *)
+  Definition sw (p : pc) : nat :=
+    stops_of (pc_ops p) + match p with CStopping _ | CJoin _ _ | CFault _ => 1 | _ => 0 end.
+  Definition nstopret (e : list event) : nat := length (filter is_stopret e).
+
+  Definition QInv (progs : list (list uop)) (s : psys) : Prop :=
+    wsum sw (pcs s) + nstopret (evs s) = total_stops progs.
+
+  Lemma QInv_step : forall progs s l s', coh s -> QInv progs s -> pstep s l = Some s' -> QInv progs s'.
+  Proof.
+    unfold QInv. intros progs s l s' C I H.
+    destruct (pstep_pc _ _ _ C H) as [(Ep & Ee)|(t & p & p' & ev & Hn & Ep & Ee & Ht)].
+    - rewrite Ep, Ee. exact I.
+    - rewrite Ep, Ee. unfold nstopret in *. rewrite filter_app, app_length.
+      pose proof (wsum_upd _ sw t p' p _ Hn) as Hw.
+      assert (E : sw p' + length (filter is_stopret ev) = sw p).
+      { inversion Ht; subst; cbn; try lia. destruct uo; cbn; lia. }
+      lia.
+  Qed.
+
+  Lemma QInv_init : forall progs, QInv progs (pinit nw progs).
+  Proof.
+    intros progs. unfold QInv, pinit. cbn [pcs evs]. unfold nstopret. cbn.
+    assert (E : forall n (l : list pc), wsum sw (repeat WInit n ++ l) = wsum sw l).
+    { induction n as [|n IHn]; intros l; [reflexivity|]. cbn [repeat app]. unfold wsum in *. cbn [fold_right]. rewrite IHn. reflexivity. }
+    rewrite E, Nat.add_0_r. unfold total_stops. induction progs as [|p r IH]; [reflexivity|].
+    cbn [map wsum fold_right]. unfold wsum in IH. rewrite IH. unfold sw, stops_of. cbn [pc_ops]. lia.
+  Qed.
+
+  Theorem QInv_reach : forall progs s, preach nw maxq (pinit nw progs) s -> QInv progs s.
+  Proof.
+    intros progs s Hr. assert (coh s /\ QInv progs s) as (_ & I); auto. revert s Hr. apply preach_inv.
+    - split; [apply coh_init|apply QInv_init].
+    - intros s l s' _ (C & I) H. split; [eapply coh_step|eapply QInv_step]; eauto.
+  Qed.
+
+  Lemma wsum_ge_one : forall A (f : A -> nat) l a x, nth_error l a = Some x -> f x <= wsum f l.
+  Proof.
+    intros A f l; induction l as [|h r IH]; intros [|a] x H; cbn in H; try discriminate.
+    - inversion H; subst. cbn. lia.
+    - cbn. specialize (IH _ _ H). unfold wsum in IH. lia.
+  Qed.
+
+  Lemma wsum_ge_two : forall A (f : A -> nat) l a b x y, nth_error l a = Some x -> nth_error l b = Some y ->
+    a <> b -> f x + f y <= wsum f l.
+  Proof.
+    intros A f l; induction l as [|h r IH]; intros [|a] [|b] x y Ha Hb Hne; cbn in Ha, Hb; try discriminate; try congruence.
+    - inversion Ha; subst. cbn. pose proof (wsum_ge_one _ f _ _ _ Hb). unfold wsum in *. lia.
+    - inversion Hb; subst. cbn. pose proof (wsum_ge_one _ f _ _ _ Ha). unfold wsum in *. lia.
+    - cbn. assert (a <> b) by congruence. specialize (IH _ _ _ _ Ha Hb H). unfold wsum in IH. lia.
+  Qed.
+
+  Lemma joined_in : forall i e, joined i e = true -> exists u, In (EvJoin u i) e.
+  Proof.
+    intros i e H. unfold joined in H. apply existsb_exists in H. destruct H as (x & Hx & Hj).
+    destruct x; try discriminate. apply Nat.eqb_eq in Hj. subst. eauto.
+  Qed.
+
+  Lemma nstopret_in : forall e u, In (EvStopRet u) e -> 1 <= nstopret e.
+  Proof.
+    intros e u H. unfold nstopret. induction e as [|x r IH]; [destruct H|]. cbn. destruct H as [->|H].
+    - cbn. lia.
+    - specialize (IH H). destruct (is_stopret x); cbn; lia.
+  Qed.
+
+  (* the assertion of Thread::join never fires unless stop() is called more than once *)
+  Theorem no_fault_step : forall progs s l s', coh s -> DInv s -> QInv progs s -> total_stops progs <= 1 ->
+    (forall x, In x (evs s) -> is_fault x = false) -> pstep s l = Some s' ->
+    forall x, In x (evs s') -> is_fault x = false.
+  Proof.
+    intros progs s l s' C D Q Hone NF H x Hin.
+    destruct (pstep_pc _ _ _ C H) as [(Ep & Ee)|(t & p & p' & ev & Hn & Ep & Ee & Ht)].
+    - rewrite Ee in Hin. auto.
+    - rewrite Ee in Hin. apply in_app_or in Hin. destruct Hin as [Hin|Hin]; auto.
+      inversion Ht; subst; cbn in Hin; try tauto; destruct Hin as [<-|[]]; auto. exfalso.
+      (* a fault: worker i was joined before by some u *)
+      unfold QInv in Q.
+      destruct (joined_in _ _ H1) as (u & Hu).
+      assert (Hswt : sw (CJoin i ops) >= 1) by (unfold sw; lia).
+      destruct (di_join _ D _ _ Hu) as [Hr|[(i' & ops' & Hp & Hlt)|(ops' & Hp)]].
+      + pose proof (nstopret_in _ _ Hr). pose proof (wsum_ge_one _ sw _ _ _ Hn). lia.
+      + destruct (Nat.eq_dec u t) as [->|Hne].
+        * unfold pc_at in Hp. rewrite Hn in Hp. inversion Hp; subst. lia.
+        * pose proof (wsum_ge_two _ sw _ _ _ _ _ Hp Hn Hne) as Hw. unfold sw in Hw at 1 2. lia.
+      + destruct (Nat.eq_dec u t) as [->|Hne].
+        * unfold pc_at in Hp. rewrite Hn in Hp. discriminate.
+        * pose proof (wsum_ge_two _ sw _ _ _ _ _ Hp Hn Hne) as Hw. unfold sw in Hw at 1 2. lia.
+  Qed.
+
+  Theorem single_stop_no_fault : forall progs s, preach nw maxq (pinit nw progs) s -> total_stops progs <= 1 ->
+    (forall x, In x (evs s) -> is_fault x = false) /\ (forall t ops, pc_at s t <> Some (CFault ops)).
+  Proof.
+    intros progs s Hr Hone.
+    assert (NF : forall x, In x (evs s) -> is_fault x = false).
+    { assert (coh s /\ DInv s /\ QInv progs s /\ forall x, In x (evs s) -> is_fault x = false) as (_ & _ & _ & I); auto.
+      revert s Hr. apply preach_inv.
+      - split; [apply coh_init|]. split; [apply (DInv_reach progs); apply preach_refl|]. split; [apply QInv_init|]. intros x [].
+      - intros s l s' Hr (C & D & Q & I) H. split; [eapply coh_step; eauto|]. split; [eapply DInv_step; eauto|].
+        split; [eapply QInv_step; eauto|]. eapply no_fault_step; eauto. }
+    split; auto. intros t ops Hp. destruct (di_fault _ (DInv_reach _ _ Hr) _ _ Hp) as (i & Hi).
+    specialize (NF _ Hi). discriminate.
+  Qed.
+
+  (* ================================================================ the statements of Properties_C15 *)
+  Notation reachable progs s := (preach nw maxq (pinit nw progs) s).
+
+  Theorem accounting : forall progs s, reachable progs s -> forall k,
+    count_occ Nat.eq_dec (accepted (evs s)) k =
+    count_occ Nat.eq_dec (started (evs s)) k + count_occ Nat.eq_dec (inhand (pcs s)) k +
+    count_occ Nat.eq_dec (queue (shared (mon s))) k.
+  Proof.
+    intros progs s Hr k. rewrite (li_acct _ _ (LInv_reach _ _ Hr)), count_occ_app, (hi_count _ (HInv_reach _ _ Hr)).
+    reflexivity.
+  Qed.
+
+  Theorem at_most_once : forall progs s, reachable progs s -> forall k,
+    count_occ Nat.eq_dec (started (evs s)) k <= count_occ Nat.eq_dec (accepted (evs s)) k.
+  Proof. intros progs s Hr k. rewrite (accounting _ _ Hr k). lia. Qed.
+
+  Lemma accepted_in : forall e, accepted e <> [] -> exists t k, In (EvAccept t k) e.
+  Proof.
+    induction e as [|x r IH]; cbn; [congruence|]. intro H. destruct x; cbn in H; eauto 6;
+      destruct (IH H) as (t0 & k0 & Hin); eauto 6.
+  Qed.
+
+  Theorem quiescent_shape : forall progs s, reachable progs s -> pquiescent nw maxq s ->
+    forall t p th, nth_error (pcs s) t = Some p -> nth_error (threads (mon s)) t = Some th ->
+      p = WDone \/ p = CIdle [] \/ (exists ops, p = CFault ops) \/
+      (p = WTake /\ st th = Waiting notEmpty /\ queue (shared (mon s)) = [] /\ running (shared (mon s)) = true) \/
+      (exists ops, p = CCall ops /\ st th = Waiting notFull /\ isFull maxq (queue (shared (mon s))) = true /\
+                   running (shared (mon s)) = true).
+  Proof.
+    intros progs s Hr Q. apply quiescent_shape_gen; auto.
+    - eapply coh_reach; eauto.
+    - eapply MInv_reach; eauto.
+    - eapply SInv_reach; eauto.
+    - eapply len_reach; eauto.
+  Qed.
+
+  Theorem exactly_once_unless_stopped : forall progs s, reachable progs s -> pquiescent nw maxq s ->
+    inhand (pcs s) = [] /\
+    (forall k, count_occ Nat.eq_dec (accepted (evs s)) k =
+               count_occ Nat.eq_dec (started (evs s)) k + count_occ Nat.eq_dec (queue (shared (mon s))) k) /\
+    (queue (shared (mon s)) <> [] -> running (shared (mon s)) = false /\ existsb is_stopsec (evs s) = true).
+  Proof.
+    intros progs s Hr Q. pose proof (coh_reach _ _ Hr) as C. pose proof (quiescent_shape _ _ Hr Q) as Sh.
+    assert (Hin : inhand (pcs s) = []).
+    { unfold inhand. apply flat_map_nil_all. intros p Hp. destruct (In_nth_error _ _ Hp) as (t & Ht).
+      destruct (nth_error (threads (mon s)) t) as [th|] eqn:Hn.
+      - destruct (Sh _ _ _ Ht Hn) as [->|[->|[(fo & ->)|[(-> & _)|(ops & -> & _)]]]]; reflexivity.
+      - exfalso. apply nth_error_None in Hn. destruct C as (Hlen & _).
+        assert (nth_error (pcs s) t <> None) as Hx by congruence. apply nth_error_Some in Hx. lia. }
+    split; auto. split.
+    - intros k. rewrite (accounting _ _ Hr k), Hin. cbn. lia.
+    - intros Hq. pose proof (LInv_reach _ _ Hr) as L.
+      assert (Hrf : running (shared (mon s)) = false).
+      { destruct (running (shared (mon s))) eqn:Hrun; auto. exfalso.
+        assert (Ha : accepted (evs s) <> []).
+        { rewrite (li_acct _ _ L). intro E. apply app_eq_nil in E. tauto. }
+        destruct (accepted_in _ Ha) as (t & k & Hin').
+        destruct (hi_who _ (HInv_reach _ _ Hr) _ Hin') as (_ & Hnz).
+        pose proof (len_reach _ _ Hr) as Hlen.
+        destruct (nth_error (pcs s) 0) as [p0|] eqn:Hp0; [|apply nth_error_None in Hp0; lia].
+        destruct (nth_error (threads (mon s)) 0) as [th0|] eqn:Hn0.
+        2:{ apply nth_error_None in Hn0. destruct C as (Hl & _). lia. }
+        destruct C as (_ & Hc). pose proof (Hc _ _ _ Hp0 Hn0) as Hc1.
+        destruct (Sh _ _ _ Hp0 Hn0) as [->|[->|[(fo & ->)|[(-> & _ & Hq0 & _)|(ops & -> & _)]]]].
+        - pose proof (di_done _ (DInv_reach _ _ Hr) 0 Hp0). congruence.
+        - cbn in Hc1. lia.
+        - cbn in Hc1. lia.
+        - congruence.
+        - cbn in Hc1. lia. }
+      split; auto. rewrite (li_flag _ _ L) in Hrf. destruct (existsb is_stopsec (evs s)); auto.
+  Qed.
+
+  Lemma prefix_nth_error : forall (A : Type) (l r : list A) k v, nth_error l k = Some v -> nth_error (l ++ r) k = Some v.
+  Proof. intros A l r k v H. rewrite nth_error_app1; auto. apply nth_error_Some. congruence. Qed.
+
+  Lemma by0 : forall e, (forall x, In x e -> match x with EvTake t _ | EvStart t _ => t = 0 | _ => True end) ->
+    taken e = taken_by 0 e /\ started e = started_by 0 e.
+  Proof.
+    induction e as [|x r IH]; intros H; [auto|].
+    destruct IH as (I1 & I2); [intros y Hy; apply H; right; auto|].
+    pose proof (H x (or_introl eq_refl)) as Hx.
+    unfold taken, taken_by, started, started_by in *. cbn [flat_map]. rewrite I1, I2.
+    destruct x; auto; subst; auto.
+  Qed.
+
+  Lemma inhand0 : forall ps ths, cohL ps ths -> nw <= 1 ->
+    inhand ps = match nth_error ps 0 with Some p => inhand1 p | None => [] end.
+  Proof.
+    intros ps ths (Hlen & Hc) Hnw. destruct ps as [|p0 r]; [reflexivity|]. cbn [nth_error]. unfold inhand. cbn [flat_map].
+    assert (E : flat_map inhand1 r = []).
+    { apply flat_map_nil_all. intros p Hp. destruct (In_nth_error _ _ Hp) as (t & Ht).
+      destruct (nth_error ths (S t)) as [th|] eqn:Hn.
+      - pose proof (Hc (S t) p th Ht Hn) as Hc1. destruct p; cbn in *; auto. lia.
+      - exfalso. apply nth_error_None in Hn. assert (nth_error r t <> None) as Hx by congruence.
+        apply nth_error_Some in Hx. cbn in Hlen. lia. }
+    rewrite E, app_nil_r. reflexivity.
+  Qed.
+
+  Theorem fifo_start_order : forall progs s, reachable progs s ->
+    (exists rest, accepted (evs s) = taken (evs s) ++ rest) /\
+    (forall i k, nth_error (taken (evs s)) i = Some k -> nth_error (accepted (evs s)) i = Some k) /\
+    (forall t, taken_by t (evs s) = started_by t (evs s) ++ inhand_at s t) /\
+    (nw <= 1 -> taken (evs s) = started (evs s) ++ inhand (pcs s)).
+  Proof.
+    intros progs s Hr. pose proof (LInv_reach _ _ Hr) as L. pose proof (HInv_reach _ _ Hr) as Hh.
+    split; [rewrite (li_acct _ _ L); eauto|]. split.
+    - intros i k Hk. rewrite (li_acct _ _ L). apply prefix_nth_error; auto.
+    - split; [apply (hi_by _ Hh)|]. intros Hnw.
+      destruct (by0 (evs s)) as (E1 & E2).
+      { intros x Hx. pose proof (hi_who _ Hh x Hx) as Hw. destruct x; auto; lia. }
+      rewrite E1, E2, (hi_by _ Hh 0), (inhand0 _ _ (coh_reach _ _ Hr) Hnw). reflexivity.
+  Qed.
+
+  Theorem on_pool_thread : forall progs s, reachable progs s ->
+    (forall t k, In (EvStart t k) (evs s) -> t < nw) /\
+    (forall t k, In (EvTake t k) (evs s) -> t < nw) /\
+    (forall t k, In (EvAccept t k) (evs s) -> nw <= t /\ nw <> 0) /\
+    (forall t k, In (EvInline t k) (evs s) -> nw = 0).
+  Proof.
+    intros progs s Hr. pose proof (hi_who _ (HInv_reach _ _ Hr)) as Hw.
+    split; [|split; [|split]]; intros t k Hin; apply (Hw _ Hin).
+  Qed.
+
+  Theorem inline_when_empty : forall progs s, reachable progs s -> nw = 0 ->
+    accepted (evs s) = [] /\ taken (evs s) = [] /\ started (evs s) = [] /\ queue (shared (mon s)) = [].
+  Proof.
+    intros progs s Hr Hz. pose proof (hi_who _ (HInv_reach _ _ Hr)) as Hw.
+    assert (Ha : accepted (evs s) = []).
+    { destruct (accepted (evs s)) as [|a0 l0] eqn:E; auto. exfalso.
+      destruct (accepted_in (evs s)) as (t1 & k1 & Hin); [congruence|]. destruct (Hw _ Hin). lia. }
+    pose proof (li_acct _ _ (LInv_reach _ _ Hr)) as Hacct. rewrite Ha in Hacct. symmetry in Hacct.
+    apply app_eq_nil in Hacct. destruct Hacct as (Ht & Hq). repeat split; auto.
+    unfold started. apply flat_map_nil_all. intros x Hx. specialize (Hw _ Hx). destruct x; auto. lia.
+  Qed.
+
+  Theorem bounded : forall progs s, reachable progs s -> 0 < maxq -> length (queue (shared (mon s))) <= maxq.
+  Proof. intros progs s Hr. apply (li_bound _ _ (LInv_reach _ _ Hr)). Qed.
+
+  (* after stop()'s first block nobody is (or ever again gets) blocked on a condition *)
+  Theorem nobody_waits_after_stop : forall progs s, reachable progs s -> running (shared (mon s)) = false ->
+    forall t th c, nth_error (threads (mon s)) t = Some th -> st th <> Waiting c.
+  Proof.
+    intros progs s Hr Hrf t th c Hn Hs. pose proof (coh_reach _ _ Hr) as C. pose proof (MInv_reach _ _ Hr) as I.
+    destruct (nth_error (pcs s) t) as [p|] eqn:Hp.
+    - assert (running (shared (mon s)) = true); [|congruence].
+      destruct (waiting_cond _ _ _ _ _ C I Hp Hn Hs) as [(_ & ->)|(ops & _ & ->)].
+      + apply (mi_bE _ I). eapply count_pos_nth; eauto. apply is_waiting_true; auto.
+      + apply (mi_bF _ I). eapply count_pos_nth; eauto. apply is_waiting_true; auto.
+    - apply nth_error_None in Hp. destruct C as (Hlen & _).
+      assert (nth_error (threads (mon s)) t <> None) as Hx by congruence. apply nth_error_Some in Hx. lia.
+  Qed.
+
+  Lemma no_spurious_after_stop : forall progs ls s s', reachable progs s -> running (shared (mon s)) = false ->
+    prun nw maxq s ls = Some s' -> pnspur ls = 0.
+  Proof.
+    intros progs. induction ls as [|l r IH]; intros s s' Hr Hrf H; [reflexivity|]. cbn in H.
+    destruct (pstep s l) as [s1|] eqn:E; [|discriminate].
+    unfold pnspur in *. cbn [filter]. destruct (p_is_spurious l) eqn:El.
+    - exfalso. destruct l as [[| |t|]| | | | |]; try discriminate.
+      pose proof (pstep_sound _ _ _ E) as R. inversion R; subst.
+      eapply (nobody_waits_after_stop _ _ Hr Hrf); eauto.
+    - eapply IH; [eapply preach_step; eauto| |exact H]. eapply running_stays_false; eauto.
+  Qed.
+
+  Theorem stop_terminates : forall progs s, reachable progs s -> running (shared (mon s)) = false ->
+    (* nobody is blocked *)
+    (forall t th c, nth_error (threads (mon s)) t = Some th -> st th <> Waiting c) /\
+    (* every continuation is finite *)
+    (forall ls s', prun nw maxq s ls = Some s' -> length ls <= pmeasure nw s) /\
+    (* a continuation that cannot be extended has every worker returned, every client finished
+       and every stop() returned *)
+    (forall ls s', prun nw maxq s ls = Some s' -> (forall l, pstep s' l = None) ->
+       (forall t, t < nw -> pc_at s' t = Some WDone) /\
+       (forall t p, nw <= t -> pc_at s' t = Some p -> p = CIdle [] \/ exists ops, p = CFault ops) /\
+       (forall t, In (EvStopSec t) (evs s') -> In (EvStopRet t) (evs s') \/ exists i, In (EvFault t i) (evs s'))) /\
+    (* and such a continuation exists *)
+    (exists ls s', prun nw maxq s ls = Some s' /\ forall l, pstep s' l = None).
+  Proof.
+    intros progs s Hr Hrf. pose proof (coh_reach _ _ Hr) as C.
+    assert (Hfin : forall ls s', prun nw maxq s ls = Some s' -> length ls <= pmeasure nw s).
+    { intros ls s' H. pose proof (prun_bound _ _ _ C H) as Hb. rewrite (no_spurious_after_stop _ _ _ _ Hr Hrf H) in Hb.
+      assert (length ls = pnonspur ls + pnspur ls) as El.
+      { unfold pnonspur, pnspur. clear. induction ls as [|l r IH]; cbn; auto. destruct (p_is_spurious l); cbn; lia. }
+      rewrite (no_spurious_after_stop _ _ _ _ Hr Hrf H) in El. lia. }
+    assert (Hend : forall ls s', prun nw maxq s ls = Some s' -> pquiescent nw maxq s' ->
+              (forall t, t < nw -> pc_at s' t = Some WDone) /\
+              (forall t p, nw <= t -> pc_at s' t = Some p -> p = CIdle [] \/ exists ops, p = CFault ops) /\
+              (forall t, In (EvStopSec t) (evs s') -> In (EvStopRet t) (evs s') \/ exists i, In (EvFault t i) (evs s')) /\
+              (forall l, pstep s' l = None)).
+    { intros ls s' H Q. pose proof (preach_prun _ _ _ _ Hr H) as Hr'.
+      assert (Hrf' : running (shared (mon s')) = false).
+      { clear Q Hr' Hfin. revert s C Hr Hrf H. induction ls as [|l r IH]; intros s C Hr Hrf H; cbn in H.
+        - inversion H; subst; auto.
+        - destruct (pstep s l) as [s1|] eqn:E; [|discriminate].
+          eapply (IH s1); eauto; [eapply coh_step|eapply preach_step|eapply running_stays_false]; eauto. }
+      pose proof (coh_reach _ _ Hr') as C'. pose proof (quiescent_shape _ _ Hr' Q) as Sh.
+      assert (Hsh : forall t p, pc_at s' t = Some p -> p = WDone \/ p = CIdle [] \/ exists ops, p = CFault ops).
+      { intros t p Hp. destruct (nth_error (threads (mon s')) t) as [th|] eqn:Hn.
+        - destruct (Sh _ _ _ Hp Hn) as [->|[->|[(fo & ->)|[(_ & _ & _ & Hx)|(ops & _ & _ & _ & Hx)]]]]; eauto; congruence.
+        - exfalso. apply nth_error_None in Hn. destruct C' as (Hlen & _).
+          assert (nth_error (pcs s') t <> None) as Hx by (unfold pc_at in Hp; congruence). apply nth_error_Some in Hx. lia. }
+      assert (Hcoh : forall t p, pc_at s' t = Some p -> (p = WDone -> t < nw) /\ (p = CIdle [] \/ (exists ops, p = CFault ops) -> nw <= t)).
+      { intros t p Hp. destruct (nth_error (threads (mon s')) t) as [th|] eqn:Hn.
+        - destruct C' as (_ & Hc). pose proof (Hc _ _ _ Hp Hn) as Hc1.
+          split; [intros ->; cbn in Hc1; tauto|intros [->|(fo & ->)]; cbn in Hc1; tauto].
+        - exfalso. apply nth_error_None in Hn. destruct C' as (Hlen & _).
+          assert (nth_error (pcs s') t <> None) as Hx by (unfold pc_at in Hp; congruence). apply nth_error_Some in Hx. lia. }
+      split; [|split; [|split]].
+      - intros t Ht. pose proof (len_reach _ _ Hr') as Hlen.
+        destruct (pc_at s' t) as [p|] eqn:Hp; [|unfold pc_at in Hp; apply nth_error_None in Hp; lia].
+        destruct (Hsh _ _ Hp) as [->|Hq]; auto. destruct (Hcoh _ _ Hp) as (_ & Hx). specialize (Hx Hq). lia.
+      - intros t p Ht Hp. destruct (Hsh _ _ Hp) as [->|Hq]; auto. destruct (Hcoh _ _ Hp) as (Hx & _). specialize (Hx eq_refl). lia.
+      - intros t Hin. destruct (di_stop _ (DInv_reach _ _ Hr') _ Hin) as [Hx|Hst]; auto.
+        destruct (pc_at s' t) as [p|] eqn:Hp; [|destruct Hst].
+        destruct (Hsh _ _ Hp) as [->|[->|(fo & ->)]]; cbn in Hst; try contradiction.
+        right. eapply (di_fault _ (DInv_reach _ _ Hr')); eauto.
+      - intros l. destruct (pstep s' l) as [s2|] eqn:E; auto. exfalso.
+        pose proof (Q _ _ E) as Hl. destruct l as [[| |t|]| | | | |]; try discriminate.
+        pose proof (pstep_sound _ _ _ E) as R. inversion R; subst.
+        eapply (nobody_waits_after_stop _ _ Hr' Hrf'); eauto. }
+    split; [apply (nobody_waits_after_stop _ _ Hr Hrf)|]. split; [exact Hfin|]. split.
+    - intros ls s' H Hno. destruct (Hend _ _ H) as (H1 & H2 & H3 & _); auto.
+      intros l s2 E. rewrite Hno in E. discriminate.
+    - destruct (preaches_quiescence s C) as (ls & s' & Hrun & _ & Q). exists ls, s'. split; auto.
+      destruct (Hend _ _ Hrun Q) as (_ & _ & _ & Hx). exact Hx.
+  Qed.
+
+  Theorem nothing_starts_after_stop_returns : forall progs s, reachable progs s ->
+    Forall after_stop_ok (after is_stopret (evs s)) /\
+    (existsb is_stopret (evs s) = true ->
+       running (shared (mon s)) = false /\ forall j, j < nw -> pc_at s j = Some WDone).
+  Proof.
+    intros progs s Hr. pose proof (SInv_reach _ _ Hr) as SI. split; [apply (si_after _ SI)|apply (si_ret _ SI)].
+  Qed.
+
+  Theorem run_after_stop_noop : forall progs s, reachable progs s ->
+    Forall not_accept (after is_stopsec (evs s)) /\
+    running (shared (mon s)) = negb (existsb is_stopsec (evs s)) /\
+    (* a run(k) section evaluated when running_ is false changes nothing and queues nothing *)
+    (forall k, running (shared (mon s)) = false ->
+       pool_body maxq (PRun k) (shared (mon s)) = Ret (shared (mon s)) RRejected []).
+  Proof.
+    intros progs s Hr. pose proof (LInv_reach _ _ Hr) as L. split; [apply (li_frozen _ _ L)|]. split; [apply (li_flag _ _ L)|].
+    intros k Hrf. unfold pool_body, run_waits. rewrite Hrf, andb_false_r. reflexivity.
+  Qed.
+
+  (* quiescence is reached from every reachable state; the bound on schedules with spurious wake-ups *)
+  Theorem quiescence_reached : forall progs s, reachable progs s ->
+    (forall ls s', prun nw maxq s ls = Some s' -> pmeasure nw s' + pnonspur ls <= pmeasure nw s + 2 * pnspur ls) /\
+    (exists ls s', prun nw maxq s ls = Some s' /\ pnspur ls = 0 /\ reachable progs s' /\ pquiescent nw maxq s').
+  Proof.
+    intros progs s Hr. pose proof (coh_reach _ _ Hr) as C. split.
+    - intros ls s' H. eapply prun_bound; eauto.
+    - destruct (preaches_quiescence s C) as (ls & s' & Hrun & Hsp & Q). exists ls, s'. repeat split; auto.
+      eapply preach_prun; eauto.
+  Qed.
+
+  (* ================================================================ every run() call is decided exactly once *)
+  Definition pend1 (v : pc * thread pop) : list task := prog_runs (snd v) ++ runs_of (pc_ops (fst v)).
+
+  Lemma pending_views : forall s, pending s = flat_map pend1 (views s).
+  Proof. reflexivity. Qed.
+
+  Lemma count_flat_map_upd : forall A (f : A -> list task) vs t v v' k, nth_error vs t = Some v ->
+    count_occ Nat.eq_dec (flat_map f (upd t v' vs)) k + count_occ Nat.eq_dec (f v) k =
+    count_occ Nat.eq_dec (flat_map f vs) k + count_occ Nat.eq_dec (f v') k.
+  Proof.
+    intros A f. induction vs as [|h r IH]; intros [|t] v v' k H; cbn in H; try discriminate.
+    - inversion H; subst. cbn [upd flat_map]. rewrite !count_occ_app. unfold task in *. lia.
+    - cbn [upd flat_map]. rewrite !count_occ_app. specialize (IH _ _ v' k H). unfold task in *. lia.
+  Qed.
+
+  Lemma pending_wakes : forall ps ths ths', wakes ths ths' ->
+    flat_map pend1 (combine ps ths') = flat_map pend1 (combine ps ths).
+  Proof.
+    intros ps ths ths' H. revert ps. induction H as [|a b l l' Hk Hw IH]; intros [|p ps]; cbn; auto.
+    rewrite IH. unfold pend1, prog_runs. cbn [fst snd]. rewrite (wk_prog _ _ Hk). reflexivity.
+  Qed.
+
+  Definition decided (e : list event) (k : task) : nat :=
+    count_occ Nat.eq_dec (accepted e) k + count_occ Nat.eq_dec (rejected e) k + count_occ Nat.eq_dec (inlined e) k.
+
+  Lemma decided_app : forall e e' k, decided (e ++ e') k = decided e k + decided e' k.
+  Proof.
+    intros e e' k. unfold decided, accepted, rejected, inlined. rewrite !flat_map_app, !count_occ_app. unfold task in *. lia.
+  Qed.
+
+  Definition PInv (progs : list (list uop)) (s : psys) : Prop :=
+    forall k, decided (evs s) k + count_occ Nat.eq_dec (pending s) k = count_occ Nat.eq_dec (submitted progs) k.
+
+  Lemma PInv_step : forall progs s l s', coh s -> PInv progs s -> pstep s l = Some s' -> PInv progs s'.
+  Proof.
+    intros progs s l s' C I H k. specialize (I k). pose proof (pstep_sound _ _ _ H) as R. rewrite pending_views in *.
+    assert (Hsame : forall t v v', nth_error (views s) t = Some v -> pend1 v' = pend1 v ->
+              count_occ Nat.eq_dec (flat_map pend1 (upd t v' (views s))) k = count_occ Nat.eq_dec (flat_map pend1 (views s)) k).
+    { intros t v v' Hv He. pose proof (count_flat_map_upd _ pend1 _ _ _ v' k Hv) as Hc. rewrite He in Hc. lia. }
+    assert (Hth : forall t, pc_at s t <> None -> exists th, nth_error (threads (mon s)) t = Some th).
+    { intros t Hp. destruct (nth_error (threads (mon s)) t) eqn:E; eauto. exfalso. apply nth_error_None in E.
+      destruct C as (Hlen & _). apply nth_error_Some in Hp. lia. }
+    inversion R; subst; cbn [evs]; unfold views at 1; cbn [pcs mon threads].
+    - pose proof (cohL_pc_at _ _ _ _ C H0) as Hpc. rewrite (views_upd_th _ _ _ _ _ Hpc H0).
+      rewrite (Hsame _ (nth t (pcs s) WDone, th)); auto. apply nth_error_combine; auto.
+      unfold pend1, prog_runs. cbn [fst snd prog]. rewrite H2. reflexivity.
+    - pose proof (cohL_pc_at _ _ _ _ C H0) as Hpc. rewrite (views_upd_th _ _ _ _ _ Hpc H0).
+      rewrite (Hsame _ (nth t (pcs s) WDone, th)); auto. apply nth_error_combine; auto.
+      unfold pend1, prog_runs. cbn [fst snd prog]. rewrite H2. reflexivity.
+    - pose proof (cohL_pc_at _ _ _ _ C H0) as Hpc. rewrite (views_upd_th _ _ _ _ _ Hpc H0).
+      rewrite (Hsame _ (nth t (pcs s) WDone, th)); auto. apply nth_error_combine; auto.
+    - pose proof (cohL_pc_at _ _ _ _ C H0) as Hpc. rewrite (views_upd_th _ _ _ _ _ Hpc H0).
+      rewrite (Hsame _ (nth t (pcs s) WDone, th)); auto. apply nth_error_combine; auto.
+    - (* return from a section *)
+      pose proof (cohL_pc_at _ _ _ _ C H0) as Hpc.
+      assert (Hv : nth_error (views s) t = Some (nth t (pcs s) WDone, th)) by (apply nth_error_combine; auto).
+      rewrite (pending_wakes _ _ _ (apply_signals_wakes sg picks _)), combine_upd. fold (views s).
+      pose proof (count_flat_map_upd _ pend1 _ _ _ (after_ret (nth t (pcs s) WDone) r, mkThread rest Idle) k Hv) as Hc.
+      rewrite decided_app.
+      assert (E1 : pend1 (nth t (pcs s) WDone, th) =
+                   (match o with PRun k0 => [k0] | _ => [] end) ++ pend1 (after_ret (nth t (pcs s) WDone) r, mkThread rest Idle)).
+      { unfold pend1, prog_runs. cbn [fst snd prog]. rewrite H2, pc_ops_after_ret. cbn [flat_map]. rewrite <- app_assoc. reflexivity. }
+      rewrite E1, count_occ_app in Hc.
+      assert (E2 : decided (ev_of t o r) k = count_occ Nat.eq_dec (match o with PRun k0 => [k0] | _ => [] end) k).
+      { destruct o as [k0| | |]; destruct r as [| |[k1|]| |]; unfold decided; cbn;
+        repeat match goal with |- context [Nat.eq_dec ?a ?b] => destruct (Nat.eq_dec a b) end; lia. }
+      rewrite E2. unfold task in *. lia.
+    - destruct (set_prog_spec _ _ _ _ _ _ _ H2) as (th & Hn & Hs & ->). cbn [threads].
+      destruct (views_upd_both s t WLoop th WTake (mkThread [PTake] Idle) H0 Hn) as (Ev & Hv). rewrite Ev.
+      rewrite (Hsame _ _ _ Hv); auto.
+      destruct C as (_ & Hc). destruct (Hc _ _ _ H0 Hn) as (_ & _ & Hq). unfold pend1, prog_runs. cbn [fst snd prog pc_ops].
+      rewrite Hq. reflexivity.
+    - destruct (Hth t) as (th & Hn); [congruence|]. rewrite (views_upd_pc _ _ _ _ _ H0 Hn).
+      rewrite (Hsame _ (WLoop, th)); auto. apply nth_error_combine; auto.
+    - destruct (Hth t) as (th & Hn); [congruence|]. rewrite (views_upd_pc _ _ _ _ _ H0 Hn).
+      rewrite decided_app. rewrite (Hsame _ (WGot k0, th)); auto; [|apply nth_error_combine; auto].
+      unfold decided at 2. cbn. lia.
+    - destruct (Hth t) as (th & Hn); [congruence|]. rewrite (views_upd_pc _ _ _ _ _ H0 Hn).
+      assert (Hv : nth_error (views s) t = Some (CIdle (URun k0 :: ops), th)) by (apply nth_error_combine; auto).
+      pose proof (count_flat_map_upd _ pend1 _ _ _ (CIdle ops, th) k Hv) as Hc.
+      assert (E1 : count_occ Nat.eq_dec (pend1 (CIdle (URun k0 :: ops), th)) k =
+                   count_occ Nat.eq_dec [k0] k + count_occ Nat.eq_dec (pend1 (CIdle ops, th)) k).
+      { unfold pend1. cbn [fst snd pc_ops runs_of flat_map]. rewrite !count_occ_app. unfold task in *. lia. }
+      rewrite decided_app. assert (E2 : decided [EvInline t k0] k = count_occ Nat.eq_dec [k0] k)
+        by (unfold decided; cbn; repeat match goal with |- context [Nat.eq_dec ?a ?b] => destruct (Nat.eq_dec a b) end; lia).
+      rewrite E2. unfold task in *. lia.
+    - destruct (set_prog_spec _ _ _ _ _ _ _ H2) as (th & Hn & Hs & ->). cbn [threads].
+      destruct (views_upd_both s t _ th (snd (call_of uo ops)) (mkThread [fst (call_of uo ops)] Idle) H0 Hn) as (Ev & Hv).
+      rewrite Ev. rewrite (Hsame _ _ _ Hv); auto.
+      destruct C as (_ & Hc). destruct (Hc _ _ _ H0 Hn) as (_ & _ & Hq). unfold pend1, prog_runs. cbn [fst snd prog].
+      rewrite Hq. destruct uo; reflexivity.
+    - destruct (Hth t) as (th & Hn); [congruence|]. rewrite (views_upd_pc _ _ _ _ _ H0 Hn).
+      rewrite decided_app. rewrite (Hsame _ (CJoin i ops, th)); auto; [|apply nth_error_combine; auto].
+      unfold decided at 2. cbn. lia.
+    - destruct (Hth t) as (th & Hn); [congruence|]. rewrite (views_upd_pc _ _ _ _ _ H0 Hn).
+      rewrite decided_app. rewrite (Hsame _ (CJoin i ops, th)); auto; [|apply nth_error_combine; auto].
+      unfold decided at 2. cbn. lia.
+    - destruct (Hth t) as (th & Hn); [congruence|]. rewrite (views_upd_pc _ _ _ _ _ H0 Hn).
+      rewrite decided_app. rewrite (Hsame _ (WInit, th)); auto; [|apply nth_error_combine; auto].
+      unfold decided at 2. cbn. lia.
+    - destruct (Hth t) as (th & Hn); [congruence|]. rewrite (views_upd_pc _ _ _ _ _ H0 Hn).
+      rewrite decided_app. rewrite (Hsame _ (CJoin i ops, th)); auto; [|apply nth_error_combine; auto].
+      unfold decided at 2. cbn. lia.
+  Qed.
+
+  Lemma PInv_init : forall progs, PInv progs (pinit nw progs).
+  Proof.
+    intros progs k. unfold decided, pending, pinit. cbn [evs pcs mon threads init_sys accepted rejected inlined flat_map count_occ].
+    rewrite map_app, combine_app_eq by (rewrite map_length, !repeat_length; reflexivity). rewrite flat_map_app, count_occ_app.
+    assert (E1 : flat_map (fun x : pc * thread pop => prog_runs (snd x) ++ runs_of (pc_ops (fst x)))
+                   (combine (repeat WInit nw) (map (fun p : list pop => mkThread p Idle) (repeat [] nw))) = []).
+    { apply flat_map_nil_all. intros [p th] Hin. pose proof (in_combine_l _ _ _ _ Hin) as Hp.
+      pose proof (in_combine_r _ _ _ _ Hin) as Ht. apply repeat_spec in Hp. apply in_map_iff in Ht.
+      destruct Ht as (q & <- & Hq). apply repeat_spec in Hq. subst. reflexivity. }
+    rewrite E1. cbn [count_occ Nat.add]. unfold submitted. f_equal. rewrite map_map.
+    induction progs as [|p r IH]; cbn [map combine flat_map]; auto. rewrite IH. reflexivity.
+  Qed.
+
+  Theorem PInv_reach : forall progs s, preach nw maxq (pinit nw progs) s -> PInv progs s.
+  Proof.
+    intros progs s Hr. assert (coh s /\ PInv progs s) as (_ & I); auto. revert s Hr. apply preach_inv.
+    - split; [apply coh_init|apply PInv_init].
+    - intros s l s' _ (C & I) H. split; [eapply coh_step|eapply PInv_step]; eauto.
+  Qed.
+
+  (* every run(k) of every client program is decided exactly once (accepted, rejected because the pool
+     was stopped, or run inline) or still pending; distinct submitted tasks start at most once *)
+  Theorem every_run_decided_once : forall progs s, preach nw maxq (pinit nw progs) s ->
+    (forall k, count_occ Nat.eq_dec (accepted (evs s)) k + count_occ Nat.eq_dec (rejected (evs s)) k +
+               count_occ Nat.eq_dec (inlined (evs s)) k + count_occ Nat.eq_dec (pending s) k =
+               count_occ Nat.eq_dec (submitted progs) k) /\
+    (NoDup (submitted progs) -> forall k, count_occ Nat.eq_dec (started (evs s)) k + count_occ Nat.eq_dec (inlined (evs s)) k <= 1).
+  Proof.
+    intros progs s Hr. pose proof (PInv_reach _ _ Hr) as I. split; [exact I|].
+    intros Hnd k. specialize (I k). unfold decided in I. pose proof (at_most_once _ _ Hr k) as Ha.
+    rewrite (NoDup_count_occ Nat.eq_dec) in Hnd. specialize (Hnd k). unfold task in *. lia.
+  Qed.
 End Pool.
